@@ -125,7 +125,8 @@ func (env *Env) runFaultCase(fc *FaultCase) (findings []string, transcript strin
 			f()
 		}
 	}()
-	old := []byte("// old content of the -out file\npackage src\n")
+	// longer than any output of the runs below, so that a write that does not replace the file shows
+	old := []byte("// old content of the -out file\npackage src\n" + strings.Repeat("// filler line of the earlier file\n", 600))
 	outExists := false
 	if fc.Out {
 		switch {
@@ -142,6 +143,7 @@ func (env *Env) runFaultCase(fc *FaultCase) (findings []string, transcript strin
 				return nil, "", fmt.Errorf("cannot mount a size-limited tmpfs here: %v %s", err, out)
 			}
 			cleanup = append(cleanup, func() { osexec.Command("umount", filepath.Join(cwd, "gen")).Run() })
+			old = old[:200] // must fit beside nothing else on the 4 KiB file system
 			os.WriteFile(filepath.Join(cwd, outRel), old, 0o644)
 			outExists = true
 		case fc.Stale:
@@ -272,7 +274,7 @@ func (env *Env) runFaultCase(fc *FaultCase) (findings []string, transcript strin
 		}
 	}
 	// ---- C15/C16/C17: regenerating over earlier output must write what a fresh run prints ----
-	if fc.PriorNoop && fc.Out && exit == 0 && !expectFail {
+	if fc.Out && exit == 0 && !expectFail {
 		var nargs []string
 		for i := 0; i < len(args); i++ {
 			if args[i] == "-out" {
@@ -293,6 +295,8 @@ func (env *Env) runFaultCase(fc *FaultCase) (findings []string, transcript strin
 		got, _ := os.ReadFile(filepath.Join(cwd, outRel))
 		if rerr == nil && !bytes.Equal(got, want) {
 			findings = append(findings, "C17: successful run with -out did not leave the complete output: the file differs from what the same run prints")
+		}
+		if rerr == nil && !bytes.Equal(got, want) && fc.PriorNoop {
 			findings = append(findings, "C16: the -out file of a default-formatter run over earlier noop-formatted output is not the gofmt-canonical output")
 			findings = append(findings, "C15: regenerating over earlier output does not give the bytes of a fresh generation")
 		}
